@@ -351,3 +351,124 @@ def run_ttl(case):
 
 
 SUBCHECKS.append(Sub("turtle", lambda tier: ttl_cases(tier), run_ttl, {"quick": 4000, "thorough": 150000}, weight=2))
+
+
+# ---------------------------------------------------------------- RDF/XML, forward
+XML_BNODES = ["a", "b1", "x", "n_1", "a.b", "a-b", "é"]
+NICE_PREDS = ["http://ex.org/ns#p", "http://ex.org/ns#q", "http://ex.org/a/name", "http://purl.org/dc/terms/title", "urn:ex:p", "http://ex.org/ns#p.q-r_1",
+              "http://bücher.example/#é", sx.RDF + "value", "http://www.w3.org/2000/01/rdf-schema#label"]
+
+
+def xml_pred():
+    return st.one_of(st.sampled_from(NICE_PREDS), st.sampled_from(NICE_PREDS),
+                     gt.iris().map(lambda t: t[1]).filter(lambda i: sx.xml_split(i) is not None and not any(ch in sx.xml_split(i)[1] for ch in "%()")))
+
+
+@st.composite
+def xml_nodes(draw, depth):
+    s = draw(st.one_of(gt.iris(), gt.iris(rich=False), st.sampled_from(XML_BNODES).map(lambda l: ["b", l]), st.none()))
+    typ = draw(st.one_of(st.none(), st.none(), xml_pred(), st.just("http://ex.org/ns#Class")))
+    lang = draw(st.one_of(st.none(), st.none(), st.none(), st.sampled_from(["en", "de", "en-US"])))
+    props = []
+    lit = st.one_of(gt.literals(xml_safe=True), gt.falsy_literals(), gt.plain_literals(xml_safe=True))
+    n_li = 0
+    for _ in range(draw(st.integers(0, 4))):
+        k = draw(st.sampled_from(["lit", "lit", "attr", "res", "res", "node", "ptres", "ptcoll", "li"]))
+        p = draw(xml_pred())
+        if k == "lit":
+            props.append(["lit", p, draw(lit)])
+        elif k == "attr":
+            props.append(["attr", p, draw(gt.plain_literals(xml_safe=True))])
+        elif k == "res":
+            props.append(["res", p, draw(st.one_of(gt.iris(), st.sampled_from(XML_BNODES).map(lambda l: ["b", l])))])
+        elif k == "node" and depth > 0:
+            props.append(["node", p, draw(xml_nodes(depth - 1))])
+        elif k == "ptres" and depth > 0:
+            inner = draw(xml_nodes(depth - 1))["props"]
+            props.append(["ptres", p, inner])
+        elif k == "ptcoll" and depth > 0:
+            props.append(["ptcoll", p, draw(st.lists(xml_nodes(0), max_size=3))])
+        elif k == "li":
+            props.append(["li", draw(st.one_of(lit, gt.iris()))])
+    # property attributes must be unique per element and must not repeat a predicate used as attribute
+    seen = set()
+    out = []
+    for pr in props:
+        if pr[0] == "attr":
+            if pr[1] in seen:
+                pr = ["lit"] + pr[1:]
+            seen.add(pr[1])
+        out.append(pr)
+    return {"s": s, "type": typ, "lang": lang, "props": out}
+
+
+@st.composite
+def xml_cases(draw, tier):
+    nodes = draw(st.lists(xml_nodes(2), min_size=1, max_size=3))
+    modes = ["str"] + draw(st.lists(st.sampled_from(MODES[1:]), min_size=1, max_size=2, unique=True))
+    return {"syntax": "xml", "nodes": nodes, "choices": draw(st.lists(st.integers(0, 999), min_size=80, max_size=140)), "modes": modes}
+
+
+def xml_ast(n):
+    def prop(pr):
+        k = pr[0]
+        if k in ("lit", "attr", "res"):
+            return (k, pr[1], jt(pr[2]))
+        if k == "node":
+            return (k, pr[1], xml_ast(pr[2]))
+        if k == "ptres":
+            return (k, pr[1], [prop(x) for x in pr[2]])
+        if k == "ptcoll":
+            return (k, pr[1], [xml_ast(m) for m in pr[2]])
+        return ("li", jt(pr[1]))
+    return {"s": jt(n["s"]) if n["s"] is not None else None, "type": n["type"], "lang": n["lang"], "props": [prop(x) for x in n["props"]]}
+
+
+def xml_iris(n, acc):
+    if n["s"] is not None and n["s"][0] == "u":
+        acc.append(n["s"][1])
+    if n["type"]:
+        acc.append(n["type"])
+    for pr in n["props"]:
+        if pr[0] != "li":
+            acc.append(pr[1])
+        if pr[0] == "node":
+            xml_iris(pr[2], acc)
+        elif pr[0] == "ptcoll":
+            for m in pr[2]:
+                xml_iris(m, acc)
+        elif pr[0] == "ptres":
+            xml_iris({"s": None, "type": None, "props": pr[2]}, acc)
+        elif pr[0] == "res" and pr[2][0] == "u":
+            acc.append(pr[2][1])
+    return acc
+
+
+def run_xml(case):
+    out = Out()
+    nodes = [xml_ast(n) for n in case["nodes"]]
+    c = sx.Chooser(case["choices"])
+    want = sx.eval_rdfxml(nodes)
+    iris = []
+    for n in nodes:
+        xml_iris(n, iris)
+    try:
+        doc = sx.RDFXMLWriter(c).document(nodes, list(dict.fromkeys(iris)))
+    except AssertionError:
+        out.cls("invalid-shape")
+        return out
+    # the document must at least be well-formed XML for the standard library (self-test of the writer)
+    p = xml.parsers.expat.ParserCreate(namespace_separator=" ")
+    try:
+        p.Parse(doc.encode("utf-8"), True)
+    except xml.parsers.expat.ExpatError as e:
+        raise AssertionError(f"harness RDF/XML writer produced ill-formed XML: {e}\n{doc}")
+    res = parse_modes(doc, "xml", False, case["modes"])
+    if not judge(out, res, want, "xml", doc, c.features, case):
+        return out
+    out.nontrivial = len(c.features) >= 2 and bool(want)
+    out.cls("syntax:xml", *["f:" + f for f in sorted(c.features)], "features:%d" % min(len(c.features), 9))
+    return out
+
+
+SUBCHECKS.append(Sub("rdfxml", lambda tier: xml_cases(tier), run_xml, {"quick": 3000, "thorough": 100000}))
